@@ -60,8 +60,11 @@ func (g *schemaGenerator) generateRootType() error {
 		return nil
 	}
 
+	// A declaration under the root's name means this document was generated
+	// before only if it was made for this very root: a definition that happens to
+	// have the same name must not make the root disappear.
 	rootTypeName := g.getRootTypeName(g.schema, g.schemaFileName)
-	if _, ok := g.output.declsByName[rootTypeName]; ok {
+	if decl, ok := g.output.declsByName[rootTypeName]; ok && decl.SchemaType == (*schemas.Type)(g.schema.ObjectAsType) {
 		return nil
 	}
 
